@@ -83,7 +83,7 @@ class IntervalRegressor(BaseEstimator, RegressorMixin):
 
         def _fit_piecewise_estimator(i, est, X, y, sample_weight, alpha):
             new_size = int(X.shape[0] * alpha + 0.5)
-            rnd = numpy.random.randint(0, X.shape[0] - 1, new_size)
+            rnd = numpy.random.randint(0, X.shape[0], new_size)
             Xr = X[rnd]
             yr = y[rnd]
             sr = sample_weight[rnd] if sample_weight is not None else None
